@@ -125,6 +125,16 @@ HistoryRes(x, n, mode) ==
 
 AuditDefined(s, e) == s < e /\ e <= epoch
 
+(* the same results as of an earlier epoch t (what an instance that has fallen behind may serve) *)
+HistAt(t) == [x \in Labels |-> SelectSeq(hist[x], LAMBDA en : en.ep <= t)]
+PublishedAt(x, t) == x \in Labels /\ Len(HistAt(t)[x]) > 0
+LookupOutAt(x, t) == LET h == HistAt(t)[x] n == Len(h) IN <<Stored(h[n]), n, h[n].ep>>
+HistoryOutAt(x, n, t) ==
+  LET h == HistAt(t)[x]
+      total == Len(h)
+      cnt == IF n = 0 THEN total ELSE MinOf(n, total)
+  IN [i \in 1..cnt |-> LET v == total - i + 1 IN <<Stored(h[v]), v, h[v].ep>>]
+
 ---------------------------------------------------------------------------
 (* Invariants *)
 
